@@ -426,3 +426,84 @@ def ids_correspondence(ck, ok, tier, replay=None):
             ck.fail("channel-id-handed-out-twice", {"ops": ops, "ids": outs})
     ck.cov["ids_cases"] = len(cases)
     ck.cov["ids_mismatches"] = bad
+
+
+def multichannel_queue(ck, tier, replay=None):
+    """MultiChannel.make_receive_queue (multi.py) on real channels of a thread-less gateway: random frame sequences for 1-3
+    member channels, every endmarker value incl. None / False / 0 and 'none requested'; the queue must hold, per member, its
+    items in order as (channel, item) and then -- iff an endmarker was requested -- (channel, endmarker) exactly once as the
+    last entry of that member, whether the channel ends by CLOSE, CLOSE_ERROR, LAST_MESSAGE or the end of receiving"""
+    from execnet import gateway_base as gb
+    from execnet.multi import MultiChannel
+
+    if replay and not (replay.get("signature") or "").startswith("multichannel"):
+        return
+    rng = random.Random(ck.seed * 31337 + 2)
+    SENT = object()
+    n = 300 if tier == "quick" else 6000
+    scripts = []
+    if replay and replay.get("example", {}).get("mc_script") is not None:
+        scripts.append(replay["example"]["mc_script"])
+    else:
+        for _ in range(n):
+            k = rng.randint(1, 3)
+            ops = []
+            for _i in range(rng.randint(0, 10)):
+                ops.append([rng.randrange(k), rng.choice(["data", "data", "data", "close", "error", "last"])])
+            scripts.append({"members": k, "endmarker": rng.choice(["none-requested", "None", "False", "0", "999", "tuple"]), "late": rng.random() < 0.4, "ops": ops, "finish": rng.random() < 0.7})
+    EM = {"None": None, "False": False, "0": 0, "999": 999, "tuple": ("END",)}
+    for sc in scripts:
+        gw = gb.BaseGateway(_IO(), "stub", _startcount=1)
+        fac = gw._channelfactory
+        chans = [fac.new() for _ in range(sc["members"])]
+        mc = MultiChannel(chans)
+        want = {i: [] for i in range(sc["members"])}
+        ended = set()
+        val = [0]
+
+        def inject(code, id, payload=b""):
+            with gw._receivelock:
+                gb.Message(code, id, payload).received(gw)
+
+        def setup():
+            if sc["endmarker"] == "none-requested":
+                return mc.make_receive_queue()
+            return mc.make_receive_queue(endmarker=EM[sc["endmarker"]])
+
+        import contextlib
+        import io
+
+        with contextlib.redirect_stderr(io.StringIO()):
+            q = None if sc["late"] else setup()
+            for i, kind in sc["ops"]:
+                ch = chans[i]
+                if kind == "data":
+                    val[0] += 1
+                    inject(gb.Message.CHANNEL_DATA, ch.id, gb.dumps_internal(val[0]))
+                    if i not in ended:
+                        want[i].append(val[0])
+                elif i not in ended:
+                    inject({"close": gb.Message.CHANNEL_CLOSE, "error": gb.Message.CHANNEL_CLOSE_ERROR, "last": gb.Message.CHANNEL_LAST_MESSAGE}[kind], ch.id, gb.dumps_internal("boom") if kind == "error" else b"")
+                    ended.add(i)
+            if q is None:
+                q = setup()
+            if sc["finish"]:
+                fac._finished_receiving()
+                ended = set(range(sc["members"]))
+            got = {i: [] for i in range(sc["members"])}
+            while not q.empty():
+                c, obj = q.get()
+                got[chans.index(c)].append(obj)
+            for ch in chans:
+                ch._remoteerrors[:] = []
+        ck.case(("multichannel", sc["members"], sc["endmarker"], sc["late"], len(sc["ops"])), nontrivial=bool(sc["ops"]))
+        ck.count("multichannel_queue_runs")
+        for i in range(sc["members"]):
+            exp = list(want[i])
+            if sc["endmarker"] != "none-requested" and i in ended:
+                exp.append(EM[sc["endmarker"]])
+            g = got[i]
+            same = len(g) == len(exp) and all((a is b) or (type(a) is type(b) and a == b) for a, b in zip(g, exp))
+            if not same:
+                ck.fail("multichannel-queue-differs:endmarker=%s" % sc["endmarker"], {"mc_script": sc, "member": i, "expected": repr(exp), "got": repr(g)})
+                break
